@@ -94,7 +94,7 @@ def reprefix(p, p2, q):
 
 
 # defects repaired in /repo (fix: commits aca8b22 0750142 f003354 85f4db6): their triggers are generated again
-REPAIRED = {"D11", "D12", "N4", "N11", "N10", "N1", "N3", "N6", "D2b", "D23", "N7", "D3", "D34", "N8", "N5", "D13"}
+REPAIRED = {"D11", "D12", "N4", "N11", "N10", "N1", "N2", "N3", "N6", "D2b", "D23", "N7", "D3", "D34", "N8", "N5", "D13"}
 
 
 class Mirror:
@@ -210,6 +210,21 @@ class Mirror:
         (a refused operation changes nothing there either) and judged by the (P) clause 'rejected => unchanged'."""
         code, _ = self._NewSpace(parent, name, bases)
         return (BADFORMULA if code == ACCEPTED else code), None
+
+    def _NewSpaceRefs(self, parent, name, bases, refs):
+        """new_space(name, bases=..., refs={...}): the creation followed by the assignment of every reference, as ONE
+        operation: refused (nothing changes) when the creation or any of the assignments would be refused.
+        Not an operation of Names/Model.v: histories with it are (P)-only (C12 'wide' class)."""
+        code, m = self._NewSpace(parent, name, bases)
+        if code != ACCEPTED:
+            return code, None
+        p = tuple(parent) + (name,)
+        for n, v in refs:
+            code, m2 = m._SetAttr(p, n, v)
+            if code != ACCEPTED:
+                return code, None
+            m = m2
+        return ACCEPTED, m
 
     def _new(self):
         m = self.clone()
@@ -594,6 +609,8 @@ class Gen:
         r = self.rng
         if r.random() < p_invalid:
             return r.choice(INVALID)
+        if r.random() < 0.04:
+            return r.choice(["Cells1", "Cells1", "Cells2"])     # the names the auto namer gives (N2, repaired in /repo)
         return r.choice(POOL)
 
     def farg(self, p_bad=0.12):
@@ -695,6 +712,125 @@ class Gen:
         while len(ops) < n and tries < n * 30:
             tries += 1
             mir, _ = self.push(mir, ops, self.draw(mir))
+        return ops
+
+    def wide_value(self, mir):
+        """a reference value outside the vocabulary of Names/Model.v: a space or a cells of the model"""
+        r = self.rng
+        sps = list(mir.sp)
+        if not sps:
+            return r.randrange(100)
+        p = r.choice(sps)
+        cs = list(mir.sp[p]["cells"])
+        if cs and r.random() < 0.4:
+            return ["icells", list(p), r.choice(cs)]
+        return ["iface", list(p)]
+
+    def wide_history(self, n):
+        """(P)-only histories for C12: the random histories plus (a) references - of spaces and of the model - whose
+        value is a space or a cells of the model, (b) new_space(..., refs={...}) with int / None / interface values,
+        names of the pool, the auto namer's names and invalid names, with and without bases.  Judged by the C12 oracle
+        on the implementation's observations only (no term of Names/Model.v)."""
+        r = self.rng
+        mir = Mirror()
+        ops = []
+        tries = 0
+        while len(ops) < n and tries < n * 30:
+            tries += 1
+            sps = list(mir.sp)
+            x = r.random()
+            if sps and x < 0.18:
+                s = [] if r.random() < 0.4 else list(r.choice(sps))
+                op = ["SetAttr", s, self.name(0.05), self.wide_value(mir)]
+            elif x < 0.36:
+                parent = [] if (not sps or r.random() < 0.6) else list(r.choice(sps))
+                bases = [list(r.choice(sps)) for _ in range(r.choice([0, 1, 1, 2]))] if sps else []
+                refs = []
+                for _ in range(r.choice([1, 1, 2, 3])):
+                    y = r.random()
+                    v = self.wide_value(mir) if y < 0.3 else (None if y < 0.4 else r.randrange(100))
+                    nm = self.name(0.1)
+                    if nm not in [q[0] for q in refs]:
+                        refs.append([nm, v])
+                op = ["NewSpaceRefs", parent, r.choice(POOL + ["e", "f", "g"]), bases, refs]
+            else:
+                op = self.draw(mir)
+            mir, _ = self.push(mir, ops, op)
+        return ops
+
+    def deep_conflict_history(self):
+        """the scenario 'a clash deep below' (seeded/C12_r3): a chain of sub spaces S1 <- S2 <- ... <- Sk (k = 2..4,
+        sometimes with a side branch), a member of one kind (cells / reference / child space) at a random depth of the
+        chain, random edits, and then an operation at the TOP of the chain that would bring a member of another kind
+        with the same name to every space below: AddBases(S_j, [B]) with B holding the name, or NewCells / SetAttr /
+        NewSpace / RenameCells directly in S_j, or the same in a base added before.  The ideal model refuses when any
+        space below - at any depth - would hold the name twice."""
+        r = self.rng
+        mir = Mirror()
+        ops = []
+
+        def some(k):
+            nonlocal mir
+            for _ in range(k):
+                mir, _ = self.push(mir, ops, self.draw(mir))
+
+        def must(op):
+            nonlocal mir
+            mir, code = self.push(mir, ops, op, thin=False)
+            return code == ACCEPTED
+
+        def member(sp, kind, n):
+            if kind == "cells":
+                return must(["NewCells", list(sp), n, ["lam", r.randrange(100)]])
+            if kind == "ref":
+                return must(["SetAttr", list(sp), n, r.randrange(100)])
+            return must(["NewSpace", list(sp), n, []])
+
+        tops = ["e", "f", "g", "h", "k"]
+        r.shuffle(tops)
+        base = (tops[0],)
+        if not must(["NewSpace", [], tops[0], []]):
+            return self.history(10)
+        chain = []
+        for k in range(r.choice([2, 3, 3, 4])):
+            parent = [] if r.random() < 0.8 or not chain else list(r.choice(chain))
+            bs = [list(chain[-1])] if chain else []
+            if must(["NewSpace", parent, tops[k + 1], bs]):
+                chain.append(tuple(parent) + (tops[k + 1],))
+        if len(chain) < 2:
+            return self.history(10)
+        n = r.choice(POOL)
+        kinds = ["cells", "ref", "space"]
+        low = r.choice(kinds)
+        depth = r.choice([len(chain) - 1, len(chain) - 1, r.randrange(1, len(chain))])
+        member(chain[depth], low, n)
+        some(r.choice([0, 0, 1, 2]))
+        high = r.choice([k for k in kinds if k != low] + kinds[:1])
+        j = r.choice([0, 0, 0, r.randrange(0, depth + 1)])
+        how = r.choice(["addbases", "addbases", "direct", "viabase", "rename", "auto"])
+        if how == "auto":
+            # the name the auto namer is going to give is in use below, as another kind of member
+            member(chain[depth], r.choice(["ref", "space", "cells"]), r.choice(["Cells1", "Cells1", "Cells2"]))
+            tgt = r.choice([chain[j], base])
+            if tgt == base:
+                must(["AddBases", list(chain[j]), [list(base)]])
+            for _ in range(r.choice([1, 2])):
+                must(["NewCells", list(tgt), None, r.choice([["lam", r.randrange(100)], ["none"]])])
+        elif how == "addbases":
+            member(base, high if high != "space" else "cells", n)     # child spaces are not inherited
+            some(r.choice([0, 0, 1]))
+            must(["AddBases", list(chain[j]), [list(base)]])
+        elif how == "direct":
+            member(chain[j], high, n)
+        elif how == "viabase":
+            must(["AddBases", list(chain[j]), [list(base)]])
+            some(r.choice([0, 0, 1]))
+            member(base, high if high != "space" else "ref", n)
+        else:
+            other = r.choice([x for x in POOL if x != n])
+            if member(chain[j], "cells", other):
+                must(["RenameCells", list(chain[j]), other, n])
+        some(r.choice([0, 2, 4]))
         return ops
 
     def override_history(self):
@@ -961,6 +1097,8 @@ def c12_oracle(ops, r, exempt_n9=False):   # N9 is repaired in /repo
                         want = ["v", d["own"][n][1]]
                 else:
                     want = "space"
+                if isinstance(want, list) and isinstance(want[1], str) and want[1].startswith("?iface:"):
+                    want = want[1].split(":")[1]          # a reference bound to a space / cells / the model
                 if kd != want:
                     bad.append("step %d %r: %s.%s is %r, the containers say %r" % (i - 1, op, p, n, kd, want))
             # the ItemSpace space[0,...]: dir() == cells + refs + spaces; refs == arguments over special names over
@@ -979,7 +1117,8 @@ def c12_oracle(ops, r, exempt_n9=False):   # N9 is repaired in /repo
                         iexp[n] = None
                     for n in d["params"]:
                         iexp[n] = 0
-                    if it["refs"] != iexp:
+                    kindonly = lambda dd: {k: (":".join(v.split(":")[:2]) if isinstance(v, str) and v.startswith("?iface:") else v) for k, v in dd.items()}
+                    if kindonly(it["refs"]) != kindonly(iexp):     # a relative reference is re-bound in the ItemSpace
                         bad.append("step %d %r: %s[0..].refs %r != parameters over special names over base refs over model refs %r" % (i - 1, op, p, it["refs"], iexp))
                     if sorted(it["cells"]) != sorted(c) or sorted(it["spaces"]) != sorted(s):
                         bad.append("step %d %r: %s[0..] cells / spaces %r %r differ from the base space's %r %r" % (i - 1, op, p, it["cells"], it["spaces"], sorted(c), sorted(s)))
@@ -988,6 +1127,8 @@ def c12_oracle(ops, r, exempt_n9=False):   # N9 is repaired in /repo
                         bad.append("step %d %r: dir(%s[0..]) %r != cells + refs + spaces %r" % (i - 1, op, p, sorted(it["dir"]), sorted(ivis)))
                     for n, kd in it["attrs"].items():
                         want = "cells" if n in c else ({"_self": "space", "_space": "space", "_model": "model", "__builtins__": "builtins"}.get(n, ["v", iexp[n]]) if n in iexp else "space")
+                        if isinstance(want, list) and isinstance(want[1], str) and want[1].startswith("?iface:"):
+                            want = want[1].split(":")[1]
                         if kd != want:
                             bad.append("step %d %r: %s[0..].%s is %r, the containers say %r" % (i - 1, op, p, n, kd, want))
             # a derived member has a definer among the bases; a defined one is not shadowed away
@@ -1354,6 +1495,7 @@ def run_check(prop, tier, seed, rng):
     oracle = ORACLE[prop]
     witnesses, corpus = load_corpus(prop)
     nrand, nmat, nuniq, nover = (260, 40, 60, 90) if tier == "quick" else (3200, 500, 700, 1000)
+    ndeep = 120 if tier == "quick" else 1500
     g = Gen(rng)
     hs = [d["ops"] for _, d in corpus]
     kinds = ["corpus"] * len(hs)
@@ -1374,6 +1516,14 @@ def run_check(prop, tier, seed, rng):
     for _ in range(nover):
         hs.append(go.override_history())
         kinds.append("rename-around-override")
+    gd = Gen(rng)
+    for _ in range(ndeep):
+        hs.append(gd.deep_conflict_history())
+        kinds.append("clash-deep-below")
+    if prop == "C12":
+        for _ in range(100 if tier == "quick" else 1500):
+            hs.append(gd.wide_history(rng.choice([8, 14, 20])))
+            kinds.append("wide-P-only")
     cases = [{"kind": "hist", "ops": h} for h in hs]
     cases.append({"kind": "valid", "names": vnames})
     wcases = [{"kind": "hist", "ops": d["ops"]} for _, d in witnesses]
@@ -1404,7 +1554,8 @@ def run_check(prop, tier, seed, rng):
             f.update({"generated_ops": f["case"]["ops"], "case": {"ops": small}, "detail": "; ".join(sbad[:4]),
                       "script": script_for(small), "outcomes": [[s["out"], s["exc"]] for s in sr["steps"]]})
     # ---- (T) the Gallina step on the same histories
-    idx = [i for i, r in enumerate(res) if all(emittable(s["obs"]) for s in r["steps"]) and len(r["steps"]) == len(hs[i])]
+    idx = [i for i, r in enumerate(res) if all(emittable(s["obs"]) for s in r["steps"]) and len(r["steps"]) == len(hs[i])
+           and kinds[i] != "wide-P-only"]
     terms = [cterm(hs[i], res[i]) for i in idx]
     from concurrent.futures import ThreadPoolExecutor
     with ThreadPoolExecutor(max_workers=2) as ex:
@@ -1423,7 +1574,7 @@ def run_check(prop, tier, seed, rng):
             tm["model"] = fw.coq_show(prop, REQ, "tie_show %s" % terms[j])
         out.tie_mismatches.append(tm)
     for i, r in enumerate(res):
-        if i not in set(idx):
+        if i not in set(idx) and kinds[i] != "wide-P-only":
             out.tie_mismatches.append({"case": {"ops": hs[i]}, "outcomes": [[s["out"], s["exc"]] for s in r["steps"]],
                                        "detail": "the implementation's state cannot be expressed in the model's vocabulary (observation failed or foreign values)"})
     # ---- (T) disagrees and (P) found nothing: look harder around the disagreeing histories
@@ -1463,11 +1614,11 @@ def run_check(prop, tier, seed, rng):
         if not bad:
             out.notes.append("witness %s no longer fails" % name)
     filt = {}
-    for gg in (g, gu, gm, go):
+    for gg in (g, gu, gm, go, gd):
         for k, v in gg.filtered.items():
             filt[k] = filt.get(k, 0) + v
     matrix = {}
-    for gg in (g, gu, gm, go):
+    for gg in (g, gu, gm, go, gd):
         for k, v in gg.matrix.items():
             matrix[k] = matrix.get(k, 0) + v
     implm = {}
